@@ -22,6 +22,28 @@ namespace c10_layout {
 		off_data_triggers_len = offsetof(H,operations.data.triggers_len),
 		off_out_stats_keys = offsetof(H,operations.out_stats.keys),
 		off_out_stats_triggers = offsetof(H,operations.out_stats.triggers),
-		size_of_time_t = sizeof(time_t)
+		size_of_time_t = sizeof(time_t),
+		// sizes of the fields (a changed field type breaks coq/C10/Link.v link_field_sizes even when no offset moves)
+		size_of_opcode = sizeof(H::opcode),
+		size_of_size = sizeof(H::size),
+		size_of_filler = sizeof(H::filler),
+		size_of_operations = sizeof(H::operations),
+		size_of_fetch_current_gen = sizeof(((H*)0)->operations.fetch.current_gen),
+		size_of_fetch_key_len = sizeof(((H*)0)->operations.fetch.key_len),
+		size_of_rise_trigger_len = sizeof(((H*)0)->operations.rise.trigger_len),
+		size_of_store_timeout = sizeof(((H*)0)->operations.store.timeout),
+		size_of_store_key_len = sizeof(((H*)0)->operations.store.key_len),
+		size_of_store_data_len = sizeof(((H*)0)->operations.store.data_len),
+		size_of_store_triggers_len = sizeof(((H*)0)->operations.store.triggers_len),
+		size_of_data_generation = sizeof(((H*)0)->operations.data.generation),
+		size_of_data_timeout = sizeof(((H*)0)->operations.data.timeout),
+		size_of_data_data_len = sizeof(((H*)0)->operations.data.data_len),
+		size_of_data_triggers_len = sizeof(((H*)0)->operations.data.triggers_len),
+		size_of_out_stats_keys = sizeof(((H*)0)->operations.out_stats.keys),
+		size_of_out_stats_triggers = sizeof(((H*)0)->operations.out_stats.triggers),
+		size_of_fetch_struct = sizeof(((H*)0)->operations.fetch),
+		size_of_store_struct = sizeof(((H*)0)->operations.store),
+		size_of_data_struct = sizeof(((H*)0)->operations.data),
+		off_operations = offsetof(H,operations)
 	};
 }
